@@ -173,7 +173,8 @@ type typeStruct struct {
 
 var families = []string{"str", "strs", "bytes", "hex", "bool", "bools", "int", "int8", "int16", "int32", "int64", "ints", "ints8", "ints16", "ints32", "ints64",
 	"uint", "uint8", "uint16", "uint32", "uint64", "uints", "uints8", "uints16", "uints32", "uints64", "float32", "float64", "floats32", "floats64",
-	"time", "times", "dur", "durs", "timediff", "timestamp", "err", "anerr", "rawjson", "type", "dict", "array", "object", "func"}
+	"time", "times", "dur", "durs", "timediff", "timestamp", "err", "anerr", "rawjson", "type", "dict", "array", "object", "func",
+	"strslit", "intslit", "boolslit", "floatslit", "durslit", "bytesconv", "hexconv", "strconcat"}
 
 func pick(n, v int) int { return ((v % n) + n) % n }
 
@@ -185,6 +186,41 @@ func compile(steps []Step, depth int) []func(*zerolog.Event) *zerolog.Event {
 		v := s.V
 		var f func(*zerolog.Event) *zerolog.Event
 		switch s.M {
+		// arguments written at the call site, the way application code does it: slice literals and
+		// conversions that the compiler keeps on the stack as long as the callee lets them
+		case "strslit":
+			a, b := strVals[pick(len(strVals), v)], strVals[pick(len(strVals), v+1)]
+			f = func(e *zerolog.Event) *zerolog.Event { return e.Strs(k, []string{a, b, "lit"}) }
+		case "intslit":
+			a := int(intVals[pick(len(intVals), v)])
+			f = func(e *zerolog.Event) *zerolog.Event { return e.Ints(k, []int{a, 2, 3}) }
+		case "boolslit":
+			a := v%2 == 0
+			f = func(e *zerolog.Event) *zerolog.Event { return e.Bools(k, []bool{a, !a}) }
+		case "floatslit":
+			a := float64(v) / 4
+			f = func(e *zerolog.Event) *zerolog.Event { return e.Floats64(k, []float64{a, 1.5}) }
+		case "durslit":
+			a := time.Duration(v) * time.Millisecond
+			f = func(e *zerolog.Event) *zerolog.Event { return e.Durs(k, []time.Duration{a, time.Second}) }
+		case "bytesconv":
+			x := strVals[pick(len(strVals), v)]
+			if len(x) > 24 {
+				x = x[:24] // conversions of short strings use a stack buffer
+			}
+			f = func(e *zerolog.Event) *zerolog.Event { return e.Bytes(k, []byte(x)) }
+		case "hexconv":
+			x := strVals[pick(len(strVals), v)]
+			if len(x) > 24 {
+				x = x[:24]
+			}
+			f = func(e *zerolog.Event) *zerolog.Event { return e.Hex(k, []byte(x)) }
+		case "strconcat":
+			x := strVals[pick(len(strVals), v)]
+			if len(x) > 12 {
+				x = x[:12]
+			}
+			f = func(e *zerolog.Event) *zerolog.Event { return e.Str(k, "p-"+x) }
 		case "str":
 			x := strVals[pick(len(strVals), v)]
 			f = func(e *zerolog.Event) *zerolog.Event { return e.Str(k, x) }
